@@ -76,8 +76,11 @@ def frames_to_label(n, df):
   return (n // 108000, (n // 1800) % 60, (n // 30) % 60, n % 30)
 
 
-def label_str(lab, df):
+def label_str(lab, df, seps=None):
+  """seps: the three separators of a DROP-FRAME label (any of ; . , in any position marks drop-frame counting)."""
   h, m, s, f = lab
+  if df and seps:
+    return "%02d%s%02d%s%02d%s%02d" % (h, seps[0], m, seps[1], s, seps[2], f)
   return "%02d:%02d:%02d%s%02d" % (h, m, s, ";" if df else ":", f)
 
 
@@ -85,7 +88,7 @@ def label_str(lab, df):
 # renderer
 # ---------------------------------------------------------------------------------------------------
 
-def render_scc(lines, df, parity=True, blank_lines=True):
+def render_scc(lines, df, parity=True, blank_lines=True, seps=None):
   """lines: [(label (h,m,s,f), [word values without parity])].  Returns the SCC text."""
   out = ["Scenarist_SCC V1.0", ""]
   for lab, ws in lines:
@@ -95,7 +98,7 @@ def render_scc(lines, df, parity=True, blank_lines=True):
       if parity:
         b1, b2 = odd_parity(b1), odd_parity(b2)
       toks.append("%02x%02x" % (b1, b2))
-    out.append(label_str(lab, df) + "\t" + " ".join(toks))
+    out.append(label_str(lab, df, seps) + "\t" + " ".join(toks))
     if blank_lines:
       out.append("")
   return "\n".join(out) + "\n"
